@@ -179,7 +179,14 @@ fn sorted(m: &BTreeMap<i16, Vec<Canon>>) -> BTreeMap<i16, Vec<Canon>> {
         .collect()
 }
 fn forward_case(src: &mut Src, ctx: &mut Ctx) -> Result<(), String> {
-    let m = gen_rawlib(src, &opts());
+    let mut m = gen_rawlib(src, &opts());
+    // a cell may be named by the empty string (the name is data), instantiated or not
+    if src.prob(1, 20) && !m.cells.iter().any(|c| c.name.is_empty()) {
+        let used: Vec<usize> = (0..m.cells.len()).filter(|i| m.cells.iter().any(|c| c.insts.iter().any(|x| x.target == *i))).collect();
+        let k = if !used.is_empty() && src.prob(3, 4) { used[src.index(used.len())] } else { src.index(m.cells.len()) };
+        m.cells[k].name = String::new();
+        ctx.label("a cell named by the empty string");
+    }
     forward(&m, ctx)
 }
 /// chains of 30-200 nested cells (with leaves shared between neighbouring levels), in any listing order
